@@ -152,7 +152,7 @@ def mf_tie(rep: Report, rng, tier: str) -> None:
             k, n0 = rng.choice([1, 2, 3, 5, 7, 10]), rng.choice(ns[1:12])
             x = float(k ** n0) * (1 + rng.choice([0, 1e-10, -1e-10, 3e-13])) * rng.choice([1, 1, -1])
         if f in ("add", "multiply"):
-            args = [rng.choice(nums) for _ in range(rng.randint(0, 4))]
+            args = [rng.choice(nums) for _ in range(rng.randint(0, 4) if rng.random() < 0.7 else rng.randint(5, 40))]
             req, impl = f"mf {f} {len(args)} " + " ".join(wire.num(a) for a in args), call(getattr(mf, f), *args)
         elif f in ("minus", "divide", "power"):
             req, impl = f"mf {f} {wire.num(x)} {wire.num(y)}", call(getattr(mf, f), x, y)
